@@ -133,9 +133,13 @@ def detect_one(sid, props):
         rc, out = apply(d, os.path.join(dst, "patch.diff"))
         if rc != 0:
             return sid, {"error": "patch does not apply to the current tree: " + out[-200:]}
+        env = dict(os.environ, VERIF_REPO=d, VERIF_EVID_DIR=os.path.join(d, ".evid"))
+        facts = os.path.join(d, ".facts.json")
+        rc, out = sh([sys.executable, os.path.join(HERE, "engine", "facts.py"), facts], cwd=HERE, env=env)      # one analysis of the patched tree, shared by all checks
+        if rc != 0 or not os.path.exists(facts):
+            return sid, {"error": "factgen failed on the patched tree: " + out[-300:]}
         for p in props:
-            env = dict(os.environ, VERIF_REPO=d, VERIF_EVID_DIR=os.path.join(d, ".evid"))
-            rc, out = sh([os.path.join(HERE, "check"), p], cwd=HERE, env=env)
+            rc, out = sh([os.path.join(HERE, "check"), p, "--facts", facts], cwd=HERE, env=env)
             fired = [ln.strip() for ln in out.splitlines() if "[VIOLATION]" in ln or "[UNDECIDABLE]" in ln]
             if rc == 1:
                 res[p] = [f[:260] for f in fired]
@@ -225,9 +229,13 @@ def neg_detect(ids):
             rc, out = apply(d, os.path.join(NEG, rid, "patch.diff"))
             if rc != 0:
                 return rid, {"error": "does not apply"}
+            env = dict(os.environ, VERIF_REPO=d, VERIF_EVID_DIR=os.path.join(d, ".evid"))
+            facts = os.path.join(d, ".facts.json")
+            rc, out = sh([sys.executable, os.path.join(HERE, "engine", "facts.py"), facts], cwd=HERE, env=env)
+            if rc != 0 or not os.path.exists(facts):
+                return rid, {"error": "factgen failed: " + out[-300:]}
             for p in props:
-                env = dict(os.environ, VERIF_REPO=d, VERIF_EVID_DIR=os.path.join(d, ".evid"))
-                rc, out = sh([os.path.join(HERE, "check"), p], cwd=HERE, env=env)
+                rc, out = sh([os.path.join(HERE, "check"), p, "--facts", facts], cwd=HERE, env=env)
                 if rc != 0:
                     fired = [ln.strip() for ln in out.splitlines() if "[VIOLATION]" in ln or "[UNDECIDABLE]" in ln or ln.startswith("ERROR")]
                     res[p] = [f[:300] for f in fired] or ["rc=%d %s" % (rc, out[-200:])]
